@@ -9,11 +9,14 @@ import tempfile
 import core
 
 PID = 'C16'
-PROOF_MODULES = ['ChamProofs.Props.C16']
+PROOF_MODULES = ['ChamProofs.Props.C16', 'ChamProofs.Props.C16Fresh']
 THEOREMS = ['ChamVerif.Sys.C16_follows', 'ChamVerif.Sys.inv_init', 'ChamVerif.Sys.C16_no_recompile', 'ChamVerif.Sys.C16_frozen_without_autoreload',
             'ChamVerif.Sys.C16_stale_counterexample', 'ChamVerif.Sys.C16_first_match', 'ChamVerif.Sys.C16_not_found', 'ChamVerif.Sys.C16_abs_path',
             'ChamVerif.Sys.C16_default_extension', 'ChamVerif.Sys.C16_no_default_extension', 'ChamVerif.Sys.C16_same_instance',
-            'ChamVerif.Sys.C16_relative_first']
+            'ChamVerif.Sys.C16_relative_first',
+            'ChamVerif.Sys.inv_stepH',
+            'ChamVerif.Sys.C16_follows_fresh',
+            'ChamVerif.Sys.invH_init']
 LEVEL_TEXT = ('Proved in Lean by refinement: for every history (no length bound) of file modifications that move the time stamp forward, renders, '
               'macro listings and macro uses, the cook_check/cook state machine of an auto-reloading file template observes exactly what the '
               'specification "a file template is its file" observes — body, content type and macro set of the latest version and nothing of '
@@ -23,7 +26,8 @@ LEVEL_TEXT = ('Proved in Lean by refinement: for every history (no length bound)
               'search path, absolute paths honoured, default extension exactly for dot-less names, same instance for the same name, the '
               'template\'s own directory first (C16_first_match … C16_relative_first). C16_stale_counterexample is the D-16a witness '
               '(macros of a dropped version stay) under the old cook. The state machine is tied to BaseTemplateFile/TemplateLoader by '
-              'running the same histories on real temporary directories (mtimes set with os.utime), bare writes included.')
+              'running the same histories on real temporary directories (mtimes set with os.utime), bare writes included.'
+              ' The refinement also holds when time stamps do not move forward: it is enough that every change gives the file a stamp it has not had before in the history, later or earlier (C16_follows_fresh; roll-backs, restored backups, clock corrections).')
 LEVEL_NOTE = ('Trusted: Lean kernel; the harness\'s reading of observations (version markers in the output). Modelled, not verified: the '
               'file system (a file is (version, mtime)); package-relative specs (pkg:path) are judged by the oracle only. D-16a was '
               'repaired in /repo (fix: 84c10e9). Interpretation I-4: the registry is keyed by the spec as passed.')
